@@ -18,12 +18,12 @@ InitWith(sc) ==
   /\ fetched = [g \in Gs |-> None] /\ upq = [g \in Gs |-> FALSE] /\ missed = [g \in Gs |-> FALSE] /\ last = [g \in Gs |-> None]
 TraceInit == l = 2 /\ InitWith(Trace[1].scen)
 
-Silent == (\E g \in Gs : FastRead(g) \/ Lock(g) \/ Recheck(g) \/ Store(g)) /\ UNCHANGED l
+Silent == (\E g \in Gs : FastRead(g) \/ Lock(g) \/ Recheck(g) \/ Store(g) \/ Abandon(g) \/ AbandonPrivate(g)) /\ UNCHANGED l
 ObsStart == Has /\ Ev.e = "start" /\ Call(Ev.g, Ev.k) /\ l' = l + 1
 ObsUpq == /\ Has /\ Ev.e = "upq" /\ up = Ev.up /\ gen[Ev.k] = Ev.gen
           /\ \E g \in Gs : key[g] = Ev.k /\ (Fetch(g) \/ PrivateFetch(g))
           /\ l' = l + 1
-ObsEnd == /\ Has /\ Ev.e = "end" /\ Ev.kind # "timeout"
+ObsEnd == /\ Has /\ Ev.e = "end"
           /\ Return(Ev.g) /\ got[Ev.g].kind = Ev.kind
           /\ (Ev.gen >= 0 => got[Ev.g].gen = Ev.gen)
           /\ l' = l + 1
